@@ -109,7 +109,9 @@ def lexValue (k : Key) (v : List Char) : List Tok :=
 
 /-- one physical line: `none` = empty after `strip_comments`.  A `term` / `rule` line is read a second time by
     `FllImporter.term / rule` through `extract_value(line, "term")`, which compares the text before the colon with the
-    key *without stripping it*: `term : …` (white space before the colon) is a `SyntaxError`. -/
+    key *without stripping it*: `term : …` (white space before the colon) is a `SyntaxError` there - when the component
+    is processed, not when the line is met.  Such a line is therefore a line of the unknown key `term ` (with the
+    white space), which every component rejects with a `SyntaxError`. -/
 def lexLine (s : List Char) : Except Err (Option Line) :=
   let body := trimChars (s.takeWhile (· ≠ '#'))
   if body.isEmpty then .ok none
@@ -117,7 +119,7 @@ def lexLine (s : List Char) : Except Err (Option Line) :=
     | (_, []) => .error .syntax
     | (k, _ :: v) =>
       let key := Key.ofText (String.ofList (trimChars k))
-      if (key = .term ∨ key = .rule) ∧ k ≠ trimChars k then .error .syntax
+      if (key = .term ∨ key = .rule) ∧ k ≠ trimChars k then .ok (some ⟨.other (String.ofList k), textTok (trimChars v)⟩)
       else .ok (some ⟨key, lexValue key (trimChars v)⟩)
 
 /-- `str.split("\n")` -/
